@@ -3,7 +3,7 @@
 
 struct buffer_s {
     /* first two elements of struct must be 'ref' followed by 'size' */
-    unsigned short ref;
+    unsigned int ref;
     unsigned int size;
 #ifdef DEBUG
     unsigned short extra_ref;
